@@ -540,6 +540,16 @@ def run(ctx):
     r = ctx.rule("R8", "edge search: samples interpolate inside end -> outside end, the bracket narrows to the samples around the first non-negative value with the same interpolation, the intersection is the bracket's midpoint; edge end points from the corner bits", 8)
     ctx.guarded(r, r8_edge_search)
     ctx.guarded(r, r8b_edge_endpoints)
+    from .. import meshcell as MC
+
+    r = ctx.rule("R9", "index vocabulary folded over its finite domains: axis bits, Axis::next and the frames are the right-handed rotation, the Corner / Axis / CellMask operators are the bit operations, to_undirected() is the documented packing and Edge::corners() its inverse", 55)
+    ctx.guarded(r, MC.r9_vocabulary)
+    r = ctx.rule("R10", "generated connectivity table: build.rs files every inside -> outside cell edge once, under the slot to_undirected() reads, with vertex / crossing offsets in the order OctreeBuilder::leaf, the collapse and the dual walk lay out and read a leaf's vertices", 18)
+    ctx.guarded(r, MC.r10_table)
+    r = ctx.rule("R11", "cell geometry: child bounds halve the parent on the corner's side of each axis, corner positions, Cell::corner signs, CellIndex::child, relative positions, containment", 10)
+    ctx.guarded(r, MC.r11_cell_geometry)
+    r = ctx.rule("R12", "collapse safety test: for all 12 coarse edges, 6 faces and the cube, the sign consulted is the one at that element's midpoint (child and corner folded over the three frames) and a disagreement with every corner blocks the collapse", 22)
+    ctx.guarded(r, MC.r12_collapsible)
     # this property quantifies over every shape and both backends, so it needs the evaluators it consults to be right
     ctx.include('C03', 'cells are declared full / empty on interval evidence', skip=('R6',))
     ctx.include('C04', 'cells are meshed with simplified tapes', skip=())
